@@ -30,7 +30,7 @@ pub open spec fn opt_sview(s: Option<String>) -> Option<Seq<char>> {
 
 impl<'a> Pp<'a> {
     pub closed spec fn env_v(&self) -> EnvV {
-        EnvV { mode: self.mode, le: self.context.le_v(), work_dir: self.context.work_dir_v(), input_path: self.context.meta().1@ }
+        EnvV { mode: self.mode, le: self.context.le_v(), work_dir: self.context.work_dir_v(), input_path: self.context.meta().1@, shell: *self.shell }
     }
 
     /// everything that stays fixed while a file is processed
